@@ -21,33 +21,38 @@ Open Scope N_scope.
 
 (* Without delete, a path that is no node of the (loaded) target - neither an entry nor a prefix of
    one - is exactly as it was: kind, bytes, exec bit. ([unshared]: it was not a link into the cache.) *)
-Theorem C09_no_delete : forall lt avail tr order w t k,
+Theorem C09_no_delete : forall lt avail tr order odc w t k,
   ~ is_node (fst (expand tr t)) k -> unshared (lookup w k) ->
-  lookup (o_ws (checkout lt false avail tr order w t)) k = lookup w k.
+  lookup (o_ws (checkout lt false avail tr order odc w t)) k = lookup w k.
 Proof. exact no_delete. Qed.
 Print Assumptions C09_no_delete.
 
 (* Every file entry of the (loaded) target whose source is unavailable - no hash info (code 3) or
    its object absent from the cache (code 2) - and which is not already in place is passed to
-   onerror; for any workspace, any delete mode, every link type (symlink since /repo 41e56e8). *)
-Theorem C09_errors_reported : forall lt delete avail tr order w t k x c,
+   onerror; for any workspace (broken links included), any delete mode, every link type (symlink since
+   /repo 41e56e8) - provided _create_dirs did not raise out of apply before any file was fetched
+   ([o_dirs_raised]: a file or broken link at the path of a directory entry without hash). *)
+Theorem C09_errors_reported : forall lt delete avail tr order odc w t k x c,
+  o_dirs_raised (checkout lt delete avail tr order odc w t) = false ->
   lookup (fst (expand tr t)) k = Some (TFile x c) ->
   unavailable avail c = true ->
   same_file (lookup w k) (Some (TFile x c)) = false ->
-  In (k, ecode c) (o_errs (checkout lt delete avail tr order w t)).
+  In (k, ecode c) (o_errs (checkout lt delete avail tr order odc w t)).
 Proof. exact errors_reported. Qed.
 Print Assumptions C09_errors_reported.
 
 (* Every directory entry whose object cannot be loaded is passed to onerror (code 1). *)
-Theorem C09_failed_dirs_reported : forall lt delete avail tr order w t k,
-  In k (snd (expand tr t)) -> In (k, 1) (o_errs (checkout lt delete avail tr order w t)).
+Theorem C09_failed_dirs_reported : forall lt delete avail tr order odc w t k,
+  In k (snd (expand tr t)) -> In (k, 1) (o_errs (checkout lt delete avail tr order odc w t)).
 Proof. exact failed_reported. Qed.
 Print Assumptions C09_failed_dirs_reported.
 
 
 (* Hypotheses of the convergence theorems:
    ws_ok w      the prior workspace is prefix closed (every non-empty strict prefix of a path is a
-                directory), holds no broken link, and the root is no entry;  ANY such workspace.
+                directory) and the root is no entry;  ANY such workspace, BROKEN LINKS INCLUDED (Dangling:
+                e.g. a symlink checkout whose cache objects were collected) - the old index lists them as
+                entries without meta and hash, as build_entries does;
    tgt_ok t'    nothing of the (loaded) target lies below a file entry; its directories may have entries
                 (build(), lazy loading) or be implicit trie nodes (an index of file entries only);
    the root key carries no file entry; every directory object loads (snd (expand ..) = []); every file
@@ -60,11 +65,11 @@ Print Assumptions C09_failed_dirs_reported.
    onerror call, apply does not raise, and EVERY path of the workspace is what the target says - files
    with the target's bytes, the target's directories (explicit and implicit), nothing else, executable
    entries executable - including file<->directory kind changes at any depth. *)
-Theorem C09_converges : forall lt avail tr order w t,
+Theorem C09_converges : forall lt avail tr order odc w t,
   ws_ok w -> tgt_ok (fst (expand tr t)) -> t_file (lookup (fst (expand tr t)) []) = false ->
   snd (expand tr t) = [] ->
   (forall k x c, lookup (fst (expand tr t)) k = Some (TFile x c) -> exists c0, c = Some c0 /\ mem_bytes c0 avail = true) ->
-  let o := checkout lt true avail tr order w t in
+  let o := checkout lt true avail tr order odc w t in
   o_errs o = [] /\ o_raised o = false /\
   (forall k, k <> [] -> conv_at (lookup (o_ws o) k) (lookup (fst (expand tr t)) k) (has_node (fst (expand tr t)) k)) /\
   lookup (o_ws o) [] = None.
@@ -73,11 +78,11 @@ Print Assumptions C09_converges.
 
 (* ... and a second compare of the resulting workspace against the same target has nothing to delete
    and nothing to create (dirs_create holds at most the root key, see the header). *)
-Theorem C09_fixpoint : forall lt avail tr order w t,
+Theorem C09_fixpoint : forall lt avail tr order odc w t,
   ws_ok w -> tgt_ok (fst (expand tr t)) -> t_file (lookup (fst (expand tr t)) []) = false ->
   snd (expand tr t) = [] ->
   (forall k x c, lookup (fst (expand tr t)) k = Some (TFile x c) -> exists c0, c = Some c0 /\ mem_bytes c0 avail = true) ->
-  let o := checkout lt true avail tr order w t in
+  let o := checkout lt true avail tr order odc w t in
   let p2 := fst (compare false true (o_ws o) tr t) in
   files_delete p2 = [] /\ dirs_delete p2 = [] /\ files_create p2 = [] /\ forall k, In k (dirs_create p2) -> k = [].
 Proof. exact fixpoint. Qed.
